@@ -191,6 +191,12 @@ func c04JSONSeeds(quick bool) (map[string][][]byte, [][]byte) {
 			}
 		}
 	}
+	for _, d := range []string{`{"type":"Person","id":"https://example.com/a","endpoints":{}}`, `{"type":"Person","endpoints":[],"publicKey":{},"streams":[]}`,
+		`{"type":"Note","source":{},"tag":[],"to":[null],"nameMap":{},"name":""}`, `{"type":"Like","object":{},"actor":{"endpoints":{}}}`,
+		`{"type":"OrderedCollectionPage","orderedItems":[],"partOf":{}}`, `{"type":"Question","oneOf":[],"anyOf":[{}],"closed":null}`, `{"type":"Link"}`, `{"type":"Mention","href":{"id":"https://example.com/h"},"rel":["https://example.com/r"]}`,
+		`{"type":"Place"}`, `{"type":"Tombstone","deleted":""}`, `{"type":"Profile","describes":{}}`, `{}`, `[]`, `[{}]`, `[[],{}]`} {
+		add("degenerate", []byte(d))
+	}
 	// odd shapes: every term of the vocabulary x values of the wrong JSON kind
 	terms := map[string]bool{}
 	for i := range universe.Structs {
@@ -467,6 +473,23 @@ func c04Run(c *engine.Ctx) {
 		universe.Level1(s, universe.Gob, true, enc)
 		if !quick {
 			universe.Saturated(s, universe.Gob, enc)
+		}
+	}
+	// degenerate but valid values: empty nested structs, empty and nil-bearing lists, values with only an id
+	degenerate := []ap.Item{
+		&ap.Actor{ID: "https://example.com/a", Type: ap.PersonType, Endpoints: &ap.Endpoints{}},
+		&ap.Actor{ID: "https://example.com/a", Type: ap.PersonType, Streams: ap.ItemCollection{}, PublicKey: ap.PublicKey{ID: "https://example.com/k"}},
+		&ap.Object{ID: "https://example.com/o", Type: ap.NoteType, Tag: ap.ItemCollection{}, To: ap.ItemCollection{nil}, Name: ap.NaturalLanguageValues{}, Source: ap.Source{Content: ap.NaturalLanguageValues{}}},
+		&ap.Object{ID: "https://example.com/o", Type: ap.NoteType, Attachment: ap.ItemCollection{}, Replies: &ap.Collection{}, URL: ap.IRIs{}},
+		&ap.Activity{ID: "https://example.com/x", Type: ap.LikeType, Object: &ap.Object{}, Actor: &ap.Actor{Endpoints: &ap.Endpoints{}}},
+		&ap.OrderedCollectionPage{ID: "https://example.com/p", Type: ap.OrderedCollectionPageType, OrderedItems: ap.ItemCollection{}, PartOf: &ap.OrderedCollection{}},
+		&ap.Question{ID: "https://example.com/q", Type: ap.QuestionType, OneOf: ap.ItemCollection{}, AnyOf: ap.ItemCollection{&ap.Object{}}},
+		&ap.Link{Type: ap.LinkType}, &ap.Place{Type: ap.PlaceType}, &ap.Tombstone{Type: ap.TombstoneType}, &ap.Profile{Type: ap.ProfileType, Describes: &ap.Object{}},
+	}
+	for _, v := range degenerate {
+		if b, err := ap.GobEncode(v); err == nil && len(b) > 0 {
+			gobSeeds[structNameOf(v)] = append(gobSeeds[structNameOf(v)], b)
+			gobAll = append(gobAll, b)
 		}
 	}
 	scalarValues := []any{ap.IRI("https://example.com/a"), ap.IRIs{"https://example.com/a", "https://example.com/b"}, ap.ItemCollection{ap.IRI("https://example.com/a"), &ap.Object{ID: "https://example.com/o", Type: ap.NoteType}},
